@@ -129,15 +129,22 @@ CutAt(f, b) ==
     LET k == Max({j \in 0..Len(f.recs) : SumBytes(SubSeq(f.recs, 1, j)) <= b})
     IN  [f EXCEPT !.recs = SubSeq(f.recs, 1, k), !.torn = b - SumBytes(SubSeq(f.recs, 1, k))]
 
-Truncate(b, s, trim) ==
+\* a crash: what the BufWriter holds is lost; fs is what the disk then holds; the log is opened again
+Crashed(fs, s, trim) ==
     /\ Clean
-    /\ files # <<>>
-    /\ b <= FileSize(files[Len(files)])
-    /\ LET fs == [files EXCEPT ![Len(files)] = CutAt(@, b)] IN
-       /\ s >= MaxDurable(fs)
-       /\ files' = Trimmed(fs, trim)
+    /\ s >= MaxDurable(fs)
+    /\ files' = Trimmed(fs, trim)
     /\ seq' = s
     /\ buf' = <<>> /\ cur' = 0
+
+\* crash without damage to the files
+Crash(s, trim) == Crashed(files, s, trim)
+
+\* crash that tore the newest file at byte b
+Truncate(b, s, trim) ==
+    /\ files # <<>>
+    /\ b <= FileSize(files[Len(files)])
+    /\ Crashed([files EXCEPT ![Len(files)] = CutAt(@, b)], s, trim)
 
 \* ---- Flip: byte b of file fi is XORed with m; b lies inside a complete record ----
 Bit(x, k) == (x \div (2 ^ k)) % 2
